@@ -30,7 +30,9 @@ def corruption_selftest(V, pid, workload, module, corruptions, per_op=6):
     for e in events:
         res = e.get("r", e.get("back", {}))
         k = (e.get("op"), e.get("ty"), e.get("form"), e.get("unit"), e.get("src"), e.get("fmt"), e.get("via"), e.get("headroom"), e.get("submin"),
-             e.get("opt"), e.get("naive"), e.get("sf"), "ok" in res if isinstance(res, dict) else None)
+             e.get("opt"), e.get("naive"), e.get("sf"), "ok" in res if isinstance(res, dict) else None,
+             "none" in res if isinstance(res, dict) else (res == -2000000000 if isinstance(res, int) else None), e.get("f"), e.get("mode"))
+        k = tuple(json.dumps(x, sort_keys=True) if isinstance(x, (dict, list)) else x for x in k)
         if seen.get(k, 0) < per_op:
             seen[k] = seen.get(k, 0) + 1
             small.append(e)
